@@ -1,7 +1,7 @@
 (* P_OracleReg3.v — the statements of property C13 over the model (bond rules, stake accounting,
    penalties, slashing rule, unbonding), derived from the invariants of P_OracleReg / P_OracleReg2. *)
 From Coq Require Import ZArith List Bool Lia.
-From FxV Require Import model.M_OracleReg proofs.P_OracleReg proofs.P_OracleReg2.
+From FxV Require Import model.M_OracleReg proofs.P_OracleReg proofs.P_OracleReg2 proofs.P_OracleRegStake.
 Import ListNotations.
 Open Scope Z_scope.
 
@@ -32,11 +32,22 @@ Theorem bond_rules : forall s a b e v amt s', bond s a b e v amt = Ok s' ->
   In a (proposal s) /\ recs s a = None /\ by_bridger s b = None /\ by_ext s e = None /\
   p_threshold (prm s) <= amt <= max_stake (prm s) /\
   recs s' a = Some (mkOracle a b e amt (height s) true v 0) /\
-  bal_o s' a = bal_o s a - amt /\ deleg s' a v = deleg s a v + amt /\ bal_d s' = bal_d s /\
-  burned s' = burned s.
+  bal_o s' a = bal_o s a - amt /\ bal_d s' = bal_d s /\ burned s' = burned s /\
+  (* what staking's Delegate did: exactly [amt] tokens reached validator v, shares at its rate *)
+  (exists V' dl', stk_delegate (vals s) (deleg s) a v amt = Some (V', dl') /\ vals s' = V' /\ deleg s' = dl' /\
+                  v_tok V' v = vtok s v + amt) /\
+  (rate1 s -> deleg s' a v = deleg s a v + amt * dec_one).
 Proof.
   intros s a b e v amt s' H. unfold bond in H. guards H. inversion H; subst; clear H. unfold_power.
-  boolprop. rewrite !upd_same, upd2_same. repeat split; auto; lia.
+  boolprop. rewrite !upd_same.
+  match goal with G : stk_delegate _ _ _ _ _ = Some (?V, ?dl) |- _ => rename G into SD end.
+  repeat split; auto; try lia.
+  - do 2 eexists. split; [reflexivity|]. split; [reflexivity|]. split; [reflexivity|].
+    unfold stk_delegate in SD.
+    destruct (negb (memZ v (v_ids (vals s)))); [discriminate|].
+    destruct ((v_tok (vals s) v =? 0) && (0 <? v_shr (vals s) v)); [discriminate|].
+    inversion SD; subst. cbn. rewrite upd_same. reflexivity.
+  - intros R. destruct (stk_delegate_rate1 _ _ _ _ _ _ _ R SD) as (_ & ->). apply upd2_same.
 Qed.
 
 Theorem add_delegate_rules : forall s a amt rw s', add_delegate s a amt rw = Ok s' ->
@@ -48,7 +59,7 @@ Theorem add_delegate_rules : forall s a amt rw s', add_delegate s a amt rw = Ok 
     recs s' a = Some (mkOracle (o_addr r) (o_bridger r) (o_ext r) (o_amount r + dc)
                                (if o_online r then o_start r else height s) true (o_val r) 0) /\
     bal_o s' a = bal_o s a - amt /\
-    deleg s' a (o_val r) = deleg s a (o_val r) + dc /\
+    (rate1 s -> deleg s' a (o_val r) = deleg s a (o_val r) + dc * dec_one) /\
     burned s' = burned s + sl.
 Proof.
   intros s a amt rw s' H. unfold add_delegate in H. guards H. inversion H; subst; clear H.
@@ -60,7 +71,10 @@ Proof.
     match goal with G : (amt <=? 0) = false |- _ => apply Z.leb_gt in G; exact G end. }
   boolprop. rewrite !upd_same. repeat split; auto; try lia.
   - destruct (0 <? amt - sl) eqn:P; [apply Z.ltb_lt in P | apply Z.ltb_ge in P]; lia.
-  - destruct (0 <? amt - sl) eqn:P; [rewrite upd2_same; lia | apply Z.ltb_ge in P; lia].
+  - intros R. match goal with G : (if 0 <? amt - sl then _ else _) = Some (?V, ?dl) |- _ =>
+      destruct (0 <? amt - sl) eqn:P;
+      [ destruct (stk_delegate_rate1 _ _ _ _ _ _ _ R G) as (_ & ->); apply upd2_same
+      | inversion G; subst; apply Z.ltb_ge in P; replace (amt - sl) with 0 by lia; ring ] end.
   - destruct (0 <? sl) eqn:P; [lia | apply Z.ltb_ge in P; lia].
 Qed.
 
@@ -68,29 +82,27 @@ Qed.
 Theorem reachable_inv : forall h t ub vs p ops, reg_inv (run (init h t ub vs p) ops).
 Proof. intros. apply run_reg, init_reg. Qed.
 
-(* the stake equation: recorded stake = what is delegated on the oracle's behalf + what governance
-   removal undelegated since the record was created; nothing is delegated elsewhere *)
-Theorem stake_accounting : forall h t ub vs p ops s a r, s = run (init h t ub vs p) ops ->
-  recs s a = Some r ->
-  o_amount r = deleg s a (o_val r) + gov_und s a /\
+(* the stake equation, along every operation list without a staking slash of a validator (1 share = 1 token,
+   [deleg] counts shares scaled 10^18): recorded stake = what is delegated on the oracle's behalf + what
+   governance removal undelegated since the record was created; nothing is delegated elsewhere *)
+Theorem stake_accounting : forall h t ub vs p ops s a r, rate1V vs -> Forall calm ops ->
+  s = run (init h t ub vs p) ops -> recs s a = Some r ->
+  deleg s a (o_val r) = (o_amount r - gov_und s a) * dec_one /\
   (forall v, v <> o_val r -> deleg s a v = 0) /\
-  (gov_und s a = 0 -> o_amount r = deleg s a (o_val r)) /\
-  (~ In a (proposal s) -> deleg s a (o_val r) = 0).
+  (gov_und s a = 0 -> deleg s a (o_val r) = o_amount r * dec_one) /\
+  (~ In a (proposal s) -> deleg s a (o_val r) = 0) /\
+  rate1 s.
 Proof.
-  intros h t ub vs p ops s a r -> Hr.
-  destruct (reachable_inv h t ub vs p ops) as (_ & _ & _ & S1 & S2 & _ & S4).
-  repeat split; eauto. intros G. rewrite (S1 _ _ Hr), G. lia.
+  intros h t ub vs p ops s a r RV F -> Hr.
+  destruct (run_stake ops _ F (init_reg h t ub vs p) (init_sinv h t ub vs p RV)) as (R & S1 & S2 & _ & S4).
+  repeat split; eauto. intros G. rewrite (S1 _ _ Hr), G. ring.
 Qed.
 
 (* [gov_und] only moves when governance removes the oracle (and restarts at 0 when it bonds) *)
 Lemma gov_unbond1_govund : forall rws st q st1 a,
   gov_unbond1 rws (Some st) q = Some st1 -> a <> o_addr q -> gov_und st1 a = gov_und st a.
 Proof.
-  intros rws st q st1 a H Ha. unfold gov_unbond1 in H.
-  destruct (deleg st (o_addr q) (o_val q) =? 0); [discriminate|].
-  destruct (negb (memZ (o_val q) (vals st))); [discriminate|].
-  destruct (max_entries <=? count_ubd (o_addr q) (o_val q) (ubds st)); [discriminate|].
-  inversion H; subst; proj. apply upd_other; auto.
+  intros rws st q st1 a H Ha. inv_gov1 H. proj. apply upd_other; auto.
 Qed.
 
 Lemma gov_fold_govund : forall rws l st st' a,
@@ -104,7 +116,7 @@ Proof.
     eapply gov_unbond1_govund; eauto. intro X. apply (Ha q); auto. left; auto.
 Qed.
 
-Lemma gov_set_govund : forall s l rws s' a, gov_set s l rws = Ok s' ->
+Lemma gov_set_govund' : forall s l rws s' a, gov_set s l rws = Ok s' ->
   memZ a l = true \/ memZ a (proposal s) = false -> gov_und s' a = gov_und s a.
 Proof.
   intros s l rws s' a H C. unfold gov_set in H.
@@ -134,12 +146,12 @@ Proof.
   - unfold withdraw_reward in H. guards H. inversion H; subst. left; reflexivity.
   - unfold unbond in H. guards H. inversion H; subst. left; reflexivity.
   - destruct (memZ a l) eqn:ML.
-    + left. eapply gov_set_govund; eauto.
+    + left. eapply gov_set_govund'; eauto.
     + destruct (memZ a (proposal s)) eqn:MP.
       * right; right. exists l, rws. repeat split; auto.
         -- intro X. apply memZ_In in X. congruence.
         -- apply memZ_In; auto.
-      * left. eapply gov_set_govund; eauto.
+      * left. eapply gov_set_govund'; eauto.
   - unfold set_params in H. guards H. inversion H; subst. left; reflexivity.
   - unfold confirm in H. guards H. inversion H; subst. left; destruct k; reflexivity.
   - unfold add_batch in H. guards H. inversion H; subst. left; reflexivity.
@@ -147,6 +159,8 @@ Proof.
   - unfold add_call in H. inversion H; subst. left; reflexivity.
   - unfold del_call in H. inversion H; subst. left; reflexivity.
   - unfold fund in H. inversion H; subst. left; reflexivity.
+  - unfold slash_val in H. destruct (negb (has_val s v)); inversion H; subst; left; reflexivity.
+  - unfold env_val in H. inversion H; subst. left; reflexivity.
   - apply end_block_spec in H. left. destruct H as (_ & _ & _ & _ & _ & G & _). rewrite G. reflexivity.
 Qed.
 
@@ -159,7 +173,7 @@ Proof. intros. split; [apply slash_amount_nonneg | apply slash_amount_le]. Qed.
 Theorem slash_count_bounded : forall h t ub vs p ops s a r, s = run (init h t ub vs p) ops ->
   recs s a = Some r -> o_slash r = 0 \/ (o_slash r = 1 /\ o_online r = false).
 Proof.
-  intros h t ub vs p ops s a r -> Hr. destruct (reachable_inv h t ub vs p ops) as (_ & _ & SL & _). eauto.
+  intros h t ub vs p ops s a r -> Hr. destruct (reachable_inv h t ub vs p ops) as (_ & _ & SL). eauto.
 Qed.
 
 (* the only transitions that burn anything are AddDelegate and UnbondedOracle of an oracle with an
@@ -172,7 +186,7 @@ Theorem penalty_charged_once : forall s o s', reg_inv s -> step s o = Ok s' ->
     slash_amount r (p_fraction (prm s)) <= Z.max 0 (o_amount r) /\
     (recs s' a = None \/ exists r', recs s' a = Some r' /\ o_slash r' = 0 /\ o_online r' = true).
 Proof.
-  intros s o s' (I & K & SL & ST) H. destruct o; cbn [step] in H.
+  intros s o s' (I & K & SL) H. destruct o; cbn [step] in H.
   - apply bond_rules in H. left. tauto.
   - destruct (add_delegate_rules _ _ _ _ _ H) as (r & Hr & _ & A0 & _ & _ & Hr' & _ & _ & B).
     destruct (SL _ _ Hr) as [Z0|[Z1 Off]].
@@ -192,7 +206,7 @@ Proof.
         destruct (0 <? slash_amount r (p_fraction (prm s))) eqn:P; [reflexivity|]. apply Z.ltb_ge in P. lia.
       * apply slash_amount_le.
       * left. apply upd_same.
-  - left. destruct (gov_set_spec _ _ _ _ I (conj K (conj SL ST)) H) as (_ & _ & _ & _ & _ & _ & B & _). exact B.
+  - left. destruct (gov_set_spec _ _ _ _ I (conj K SL) H) as (_ & _ & _ & _ & _ & _ & B & _). exact B.
   - unfold set_params in H. guards H. inversion H; subst. left; reflexivity.
   - unfold confirm in H. guards H. inversion H; subst. left; destruct k; reflexivity.
   - unfold add_batch in H. guards H. inversion H; subst. left; reflexivity.
@@ -200,6 +214,8 @@ Proof.
   - unfold add_call in H. inversion H; subst. left; reflexivity.
   - unfold del_call in H. inversion H; subst. left; reflexivity.
   - unfold fund in H. inversion H; subst. left; reflexivity.
+  - unfold slash_val in H. destruct (negb (has_val s v)); inversion H; subst; left; reflexivity.
+  - unfold env_val in H. inversion H; subst. left; reflexivity.
   - apply end_block_spec in H. left. destruct H as (_ & _ & _ & _ & _ & _ & _ & B & _). exact B.
 Qed.
 
@@ -266,7 +282,7 @@ Theorem offline_only_if : forall s o s' a r r', reg_inv s -> step s o = Ok s' ->
      has_conf_ext (o_ext r) x = false /\
      height s - ob_height x >= p_window (prm s)).
 Proof.
-  intros s o s' a r r' (I & K & SL & ST) H Hr On Hr' Off. destruct o; cbn [step] in H.
+  intros s o s' a r r' (I & K & SL) H Hr On Hr' Off. destruct o; cbn [step] in H.
   - exfalso. unfold bond in H. guards H. inversion H; subst; clear H. unfold_power.
     destruct (Z.eq_dec a a0) as [->|N]; [congruence|]. rewrite upd_other in Hr' by auto. congruence.
   - exfalso. unfold add_delegate in H. guards H. inversion H; subst; clear H. unfold_power.
@@ -286,7 +302,7 @@ Proof.
     destruct (Z.eq_dec a a0) as [->|N].
     + rewrite upd_same in Hr'. discriminate.
     + rewrite upd_other in Hr' by auto. congruence.
-  - left. destruct (gov_set_spec _ _ _ _ I (conj K (conj SL ST)) H) as (_ & _ & _ & _ & C & E & _).
+  - left. destruct (gov_set_spec _ _ _ _ I (conj K SL) H) as (_ & _ & _ & _ & C & E & _).
     exists l, rws. split; auto. split.
     + intros X. rewrite (C _ X) in Hr'. congruence.
     + destruct (E _ _ _ Hr Hr') as [->| ->]; [congruence | reflexivity].
@@ -297,6 +313,8 @@ Proof.
   - exfalso. unfold add_call in H. inversion H; subst; clear H. proj; congruence.
   - exfalso. unfold del_call in H. inversion H; subst; clear H. unfold set_objs in Hr'; proj; congruence.
   - exfalso. unfold fund in H. inversion H; subst; clear H. proj; congruence.
+  - exfalso. unfold slash_val in H. destruct (negb (has_val s v)); inversion H; subst; clear H; unfold set_vals_deleg in *; proj; congruence.
+  - exfalso. unfold env_val in H. inversion H; subst; clear H. unfold set_vals_deleg in *; proj; congruence.
   - right. apply end_block_spec in H. destruct H as (R & U & _).
     pose proof (R a) as Ra. rewrite Hr, Hr' in Ra. destruct Ra as [->|[_ ->]]; [congruence|].
     destruct (due_hit a s) eqn:EX.
@@ -326,7 +344,7 @@ Theorem slashed_only_if : forall s o s' a, reg_inv s -> step s o = Ok s' ->
      In x (objs_of s k) /\ o_start r <= ob_height x /\
      has_conf_ext (o_ext r) x = false /\ height s - ob_height x >= p_window (prm s).
 Proof.
-  intros s o s' a RI H Lt. pose proof RI as (I & K & SL & ST). unfold slash_count in Lt.
+  intros s o s' a RI H Lt. pose proof RI as (I & K & SL). unfold slash_count in Lt.
   assert (NN : forall r, recs s a = Some r -> 0 <= o_slash r).
   { intros r Hr. destruct (SL _ _ Hr) as [->|[-> _]]; lia. }
   destruct o; cbn [step] in H.
@@ -350,7 +368,7 @@ Proof.
   - exfalso. unfold unbond in H. guards H. inversion H; subst; clear H. proj.
     destruct (upd_cases _ (recs s) a0 None a) as [[-> E]|[_ E]]; rewrite E in Lt; [|lia].
     rewrite Heqo in Lt. specialize (NN _ Heqo). lia.
-  - exfalso. destruct (gov_set_spec _ _ _ _ I (conj K (conj SL ST)) H) as (_ & _ & _ & L & _ & E & _).
+  - exfalso. destruct (gov_set_spec _ _ _ _ I (conj K SL) H) as (_ & _ & _ & L & _ & E & _).
     pose proof (L a) as La. destruct (recs s a) as [r|] eqn:Hr, (recs s' a) as [r'|] eqn:Hr'; try tauto; try lia.
     destruct (E _ _ _ Hr Hr') as [->| ->]; cbn in Lt; lia.
   - exfalso. unfold set_params in H. guards H. inversion H; subst; clear H. proj. lia.
@@ -360,6 +378,8 @@ Proof.
   - exfalso. unfold add_call in H. inversion H; subst; clear H. proj; lia.
   - exfalso. unfold del_call in H. inversion H; subst; clear H. unfold set_objs in Lt; proj; lia.
   - exfalso. unfold fund in H. inversion H; subst; clear H. proj; lia.
+  - exfalso. unfold slash_val in H. destruct (negb (has_val s v)); inversion H; subst; clear H; unfold set_vals_deleg in *; proj; lia.
+  - exfalso. unfold env_val in H. inversion H; subst; clear H. unfold set_vals_deleg in *; proj; lia.
   - pose proof (end_block_spec _ _ _ _ _ H) as (R & _).
     pose proof (R a) as Ra. destruct (recs s a) as [r|] eqn:Hr, (recs s' a) as [r'|] eqn:Hr'; try tauto; try lia.
     destruct Ra as [->|[On ->]]; [lia|].
@@ -511,7 +531,9 @@ Qed.
    They are the scripted histories of harness/c13 (replayed on the real application on every run). *)
 
 Definition FX (n : Z) : Z := n * 10 ^ 18.
-Definition w_init : state := init 2 10 1814400 [0; 1; 2] (mkParams (FX 10000) 10 (8 * 10 ^ 17) 2).
+(* three validators with 100 FX of their own, 1 share = 1 token *)
+Definition w_vals : vset := mkV [0; 1; 2] (fun _ => FX 100) (fun _ => FX 100 * dec_one).
+Definition w_init : state := init 2 10 1814400 w_vals (mkParams (FX 10000) 10 (8 * 10 ^ 17) 2).
 Definition w_setup : list op :=
   map (fun a => Fund a (FX 300000)) [0; 1; 2; 3; 4; 5; 6] ++
   [GovSet [0; 1; 2; 3; 4; 5; 6] []] ++
@@ -585,7 +607,7 @@ Qed.
 Theorem stake_backed_refuted : exists ops a r,
   let s := run w_init ops in
   recs s a = Some r /\ In a (proposal s) /\ o_online r = true /\
-  o_amount r = FX 10000 + 1 /\ deleg s a (o_val r) = 1 /\ power r = 100.
+  o_amount r = FX 10000 + 1 /\ deleg s a (o_val r) = 1 * dec_one /\ power r = 100.
 Proof.
   exists w_C, 0, (mkOracle 0 100 200 (FX 10000 + 1) 3 true 0 0). cbv zeta.
   split; [vm_compute; reflexivity|]. split; [vm_compute; auto|]. split; [reflexivity|].
@@ -603,7 +625,7 @@ Example c13_nonvacuous :
   (* paying the penalty: exactly 8000 FX burned, 2000 FX more delegated, online again, counter reset *)
   let s' := exec s (AddDelegate 3 (FX 10000) 0) in
   recs s' 3 = Some (mkOracle 3 103 203 (FX 12000) 6 true 0 0) /\ burned s' = FX 8000 /\
-  deleg s' 3 0 = FX 12000 /\ bal_o s' 3 = FX 280000 /\
+  deleg s' 3 0 = FX 12000 * dec_one /\ bal_o s' 3 = FX 280000 /\
   (* below the penalty it is refused *)
   step s (AddDelegate 3 (FX 8000 - 1) 0) = Err e_invalid /\
   (* bounds *)
@@ -665,4 +687,24 @@ Proof.
   intro F; first
   [ discriminate F
   | cbv zeta; split; [|split]; vm_compute; repeat split; reflexivity ].
+Qed.
+
+(* the same life cycle when the staking module has slashed the oracle's validator in between (5 % of validator 0,
+   which holds oracles 0, 3, 6): oracle 3 still moves what is left (9500 FX) to validator 2, governance still
+   removes oracle 0, and after maturity oracle 0 withdraws exactly the remaining 9500 FX + rewards, once *)
+Definition w_F : list op :=
+  w_setup ++ confirm_all 1 (-1) ++
+  [SlashVal 0 (FX 1505); ReDelegate 3 2 3; GovSet [1; 2; 3; 4; 5; 6] [(0, 7)]; EndBlock 1814500 1814505 true].
+
+Theorem validator_slash_life_cycle_if_fixed : Gen_OracleSlash.unbond_needs_entry = false ->
+  let s := run w_init w_F in
+  let s' := exec s (Unbond 0) in
+  vtok s 0 = FX 9595 /\ vshr s 0 = FX 10100 * dec_one /\               (* validator 0: slashed, oracle 6 and itself left *)
+  recs s 3 = Some (mkOracle 3 103 203 (FX 10000) 2 true 2 0) /\ deleg s 3 2 = FX 9500 * dec_one /\ deleg s 3 0 = 0 /\
+  recs s 0 = Some (mkOracle 0 100 200 (FX 10000) 2 false 0 0) /\ deleg s 0 0 = 0 /\ ubds s = [] /\
+  bal_d s 0 = FX 9500 + 7 /\
+  is_ok (step s (Unbond 0)) = true /\ bal_o s' 0 - bal_o s 0 = FX 9500 + 7 /\ recs s' 0 = None /\
+  step s' (Unbond 0) = Err e_notfound.
+Proof.
+  intro F; first [ discriminate F | cbv zeta; vm_compute; repeat split; reflexivity ].
 Qed.
